@@ -51,7 +51,10 @@ RULE = ("histories of 10-60 operations (new slice, overwrite slice, put, put-str
         "sha3-256 / blake2b-256 / keccak-256), ~55 hostile "
         "keys (empty, '.', '..', '/', a/b vs a//b, NUL, 255/256/300 bytes, case variants, names of store directories, keys pointing "
         "into .temp; pairs of 159-300 byte keys sharing a prefix of >= 158 bytes) and random bytes; contents include the EMPTY block "
-        "and one-byte blocks (about a quarter of the keys) through every put form; for memstore, cidlink.Memory and fsstore with each sharding function; 15% of histories write "
+        "and one-byte blocks (about a quarter of the keys) and blocks made of blobs of 1/100/4095/4096/4097/8192/65536 bytes in mixed "
+        "order (vectors, multi-write streams, open streams) through every put form; for fs keys also their escaped form under the "
+        "store's escaping function (and the escaped form of that) right after an operation on the original, with base32 and with a "
+        "custom (hex) escaping function; for memstore, cidlink.Memory and fsstore with each sharding function; 15% of histories write "
         "through peeked slices and 10% give a key two contents (outside the quantifier: they tie the aliasing and first/last-write "
         "models and are judged only up to that point); plus a fixed corpus with every hostile key alone, the witnesses of the "
         "findings, the empty / one-byte block through put, put-stream (also with no chunk at all) and put-vec on every store, and "
